@@ -313,6 +313,45 @@ def run_batch(fn, items, wall_cap_s: float, chunk: int = 1, jobs: int | None = N
     return flat
 
 
+def isolated(fn, *args):
+    """Run fn(*args) in a forked child of this process and return its (picklable) result.
+
+    Used by the main harness process for everything that executes code under test outside the worker pool (confirmation,
+    minimisation, replay-file writing): the main process itself never runs a case, so every such execution starts from
+    the same clean module state, whatever the code under test leaves behind (caches, counters, class attributes).
+    """
+    import pickle
+    r, w = os.pipe()
+    pid = os.fork()
+    if pid == 0:
+        code = 0
+        try:
+            os.close(r)
+            try:
+                out = ("ok", fn(*args))
+            except HarnessError as e:
+                out = ("harness", str(e))
+            except BaseException:  # noqa
+                import traceback
+                out = ("harness", "unexpected exception in isolated call: " + traceback.format_exc()[-1200:])
+            with os.fdopen(w, "wb") as f:
+                pickle.dump(out, f, protocol=4)
+        except BaseException:  # noqa
+            code = 3
+        finally:
+            os._exit(code)
+    os.close(w)
+    with os.fdopen(r, "rb") as f:
+        data = f.read()
+    _, status = os.waitpid(pid, 0)
+    if status != 0 or not data:
+        raise HarnessError(f"isolated call died (status {status})")
+    kind, out = pickle.loads(data)
+    if kind != "ok":
+        raise HarnessError(out)
+    return out
+
+
 # --------------------------------------------------------------------------
 # delta debugging
 # --------------------------------------------------------------------------
